@@ -1,17 +1,23 @@
 #!/bin/bash
-# Full .vo build of theories/ and gen/ (never -vos).  Property files are compiled by ./check itself so that
-# their Print Assumptions output is captured on every run.
-# usage: build.sh [-k]   (-k: keep going after a failing file so that the models still build when a proof breaks)
+# Full .vo build (never -vos) of theories/ and gen/, or of the given targets (e.g. theories/History.vo) with their
+# dependencies.  Property files are compiled by ./check itself so that their Print Assumptions output is captured.
+# usage: build.sh [-k] [targets...]   (-k: keep going after a failing file so that models still build when a proof breaks)
 set -u
 cd "$(dirname "$0")"
 KEEP=""
-[ "${1:-}" = "-k" ] && KEEP="-k"
+[ "${1:-}" = "-k" ] && { KEEP="-k"; shift; }
+exec 9>/tmp/verif_coq_build.lock; flock 9
 {
   echo "-Q theories PV"
   echo "-Q gen PVG"
   ls theories/*.v 2>/dev/null
   ls gen/*.v 2>/dev/null
-} > _CoqProject
-coq_makefile -f _CoqProject -o Makefile.coq > /dev/null 2>&1 || exit 2
-timeout 3000 make -f Makefile.coq -j"${VERIF_JOBS:-16}" $KEEP 2>&1
+} > _CoqProject.new
+if ! cmp -s _CoqProject.new _CoqProject 2>/dev/null || [ ! -f Makefile.coq ]; then
+  mv _CoqProject.new _CoqProject
+  coq_makefile -f _CoqProject -o Makefile.coq > /dev/null 2>&1 || exit 2
+else
+  rm -f _CoqProject.new
+fi
+timeout 3000 make -f Makefile.coq -j"${VERIF_JOBS:-16}" $KEEP "$@" 2>&1
 exit ${PIPESTATUS[0]}
